@@ -55,10 +55,18 @@ def special_packets(rnd):
             raw = P.csum16((src + dst + (struct.pack('!IHBB', len(u0), 0, 0, 17) if v6 else struct.pack('!BBH', 0, 17, len(u0)))) + u0)
             # raw = ~sum ; choose last word w so that new sum == 0xffff -> checksum 0 -> sent as 0xffff
             s = (~raw) & 0xffff
-            w = (0xffff - s) % 0xffff
-            body2 = body[:-2] + struct.pack('!H', w)
-            u = P.udp(rnd, body2, csum=f, sport=struct.unpack('!H', u0[:2])[0])
-            out.append(('IPv6-UDP-CoAP' if v6 else 'IPv4-UDP-CoAP', (P.ipv6(rnd, u, 17, src, dst) if v6 else P.ipv4(rnd, u, 17, src, dst))))
+            # choose the last payload word so that the checksum lands on a corner value: 0 (sent as 0xFFFF), values next to
+            # 0xFFFF and 0x0000 (where a dropped end-around carry shows), mid-range
+            for target in (0x0000, 0xfffe, 0xfffd, 0xfffc, 0xfffb, 0x0001, 0x0002, 0x8000, 0x7fff):
+                want_sum = (~target) & 0xffff
+                w = (want_sum - s) % 0xffff
+                for ww in (w, w or 0xffff):
+                    body2 = body[:-2] + struct.pack('!H', ww)
+                    u = P.udp(rnd, body2, csum=f, sport=struct.unpack('!H', u0[:2])[0])
+                    got = struct.unpack('!H', u[6:8])[0]
+                    if got == (target or 0xffff):
+                        out.append(('IPv6-UDP-CoAP' if v6 else 'IPv4-UDP-CoAP', (P.ipv6(rnd, u, 17, src, dst) if v6 else P.ipv4(rnd, u, 17, src, dst))))
+                        break
     return out
 
 
@@ -91,8 +99,8 @@ def run(rep, tier, seed):
             fn = ComputeFunctions[f.id][0]
             out = obs_bits(with_timeout(lambda: fn(fl, k)))
             fails = [] if out == ('OK', want) else ['%s computed as %s, the packet carries %s' % (name, str(out)[:60], want)]
-            if want in ('0' * 16, '1' * 16):
-                rep.hist['corner:%s=%s' % (WHICH[name], 'zero' if want[0] == '0' else 'ones')] = rep.hist.get('corner:%s=%s' % (WHICH[name], 'zero' if want[0] == '0' else 'ones'), 0) + 1
+            if int(want, 2) in (0, 1, 2, 0xffff, 0xfffe, 0xfffd, 0xfffc, 0xfffb) and len(want) == 16:
+                rep.hist['corner:%s=%04x' % (WHICH[name], int(want, 2))] = rep.hist.get('corner:%s=%04x' % (WHICH[name], int(want, 2)), 0) + 1
             nfl = [(fid_of(i_), bits_of(v)) for i_, v in fl]
             line = ' '.join(['S', 'compute', WHICH[name]] + fields_tokens(nfl) + [str(k)])
             b.add('compute:%s:%s' % (stack, WHICH[name]), line, out, parse_model_bits, fails, dict(layer='compute', op=WHICH[name], stack=stack, packet=pkt.hex(), position=k), key=line)
